@@ -39,6 +39,9 @@ struct Bh {
     keep_done: bool,
     /// the first inner call panics synchronously inside call() (no future is ever returned)
     sync_panic_first: bool,
+    /// builder order: reject_when_full() is called first and the wait given afterwards (the
+    /// later call wins); max_concurrent_calls is given last
+    preset_first: bool,
 }
 
 struct X {
@@ -74,14 +77,21 @@ fn do_arrive(w: &mut World, svc: &mut Svc, c: usize, single_handle: bool) {
         Ok(Ok(())) => {}
         other => panic!("bulkhead poll_ready not ready: {:?}", other.map(|r| r.is_ok())),
     }
-    // `keep` does not drop the service's own future when it resolves
-    let fut = trv_core::world::keep(s.call(req.clone()), |r| match r {
-        Ok(r) => Outcome::Ok(r),
-        Err(BulkheadServiceError::Inner(e)) => Outcome::Inner(e),
-        Err(BulkheadServiceError::Bulkhead(BulkheadError::Timeout)) => Outcome::Layer("Timeout".into()),
-        Err(BulkheadServiceError::Bulkhead(BulkheadError::BulkheadFull { .. })) => Outcome::Layer("Full".into()),
-    });
-    w.set_arrived(c, req, fut);
+    // `keep` does not drop the service's own future when it resolves.  (Should call() reach the
+    // inner service's call() - it does not on the code as it stands - a panic in there comes
+    // out of call() itself.)
+    let r = std::panic::catch_unwind(std::panic::AssertUnwindSafe(|| {
+        trv_core::world::keep(s.call(req.clone()), |r| match r {
+            Ok(r) => Outcome::Ok(r),
+            Err(BulkheadServiceError::Inner(e)) => Outcome::Inner(e),
+            Err(BulkheadServiceError::Bulkhead(BulkheadError::Timeout)) => Outcome::Layer("Timeout".into()),
+            Err(BulkheadServiceError::Bulkhead(BulkheadError::BulkheadFull { .. })) => Outcome::Layer("Full".into()),
+        })
+    }));
+    match r {
+        Ok(fut) => w.set_arrived(c, req, fut),
+        Err(_) => w.set_resolved_at_arrival(c, req, Outcome::Layer("PanickedInCall".into())),
+    }
 }
 
 impl Scenario for Bh {
@@ -90,7 +100,7 @@ impl Scenario for Bh {
         self.prop
     }
     fn label(&self) -> String {
-        format!("bulkhead max={} max_wait={:?} callers={}{}{}", self.max, self.max_wait, self.callers, if self.late_ticks > 0 { " late-polls" } else { "" }, if self.shave_us > 0 { format!(" minus {}us", self.shave_us) } else if self.single_handle { " one-handle".to_string() } else if self.keep_done { " finished-futures-kept".to_string() } else if self.sync_panic_first { " first-inner-call-panics-in-call()".to_string() } else { String::new() })
+        format!("bulkhead max={} max_wait={:?} callers={}{}{}", self.max, self.max_wait, self.callers, if self.late_ticks > 0 { " late-polls" } else { "" }, if self.shave_us > 0 { format!(" minus {}us", self.shave_us) } else if self.single_handle { " one-handle".to_string() } else if self.keep_done { " finished-futures-kept".to_string() } else if self.sync_panic_first { " first-inner-call-panics-in-call()".to_string() } else if self.preset_first { " builder_order=reject_when_full_first".to_string() } else { String::new() })
     }
     fn callers(&self) -> usize {
         self.callers
@@ -105,11 +115,21 @@ impl Scenario for Bh {
         self.keep_done
     }
     fn init(&self, w: &mut World) -> X {
-        let mut b = BulkheadLayer::builder().max_concurrent_calls(self.max);
-        b = match self.max_wait {
-            None => b,
-            Some(0) => b.reject_when_full(),
-            Some(ms) => b.max_wait_duration(Duration::from_micros(ms * 1000 - self.shave_us)),
+        let b = if self.preset_first {
+            let b = BulkheadLayer::builder().reject_when_full();
+            let b = match self.max_wait {
+                None => b, // (not used with preset_first)
+                Some(0) => b.max_wait_duration(Duration::from_millis(5)).reject_when_full(),
+                Some(ms) => b.max_wait_duration(Duration::from_micros(ms * 1000 - self.shave_us)),
+            };
+            b.max_concurrent_calls(self.max)
+        } else {
+            let b = BulkheadLayer::builder().max_concurrent_calls(self.max);
+            match self.max_wait {
+                None => b,
+                Some(0) => b.reject_when_full(),
+                Some(ms) => b.max_wait_duration(Duration::from_micros(ms * 1000 - self.shave_us)),
+            }
         };
         let layer = b.build();
         if self.sync_panic_first {
@@ -276,7 +296,9 @@ impl Scenario for Bh {
             debug_assert_eq!(c, base + i);
             w.begin_step();
             do_arrive(w, &mut x.svc, c, self.single_handle);
-            w.poll_caller(c);
+            if w.callers[c].is_live() {
+                w.poll_caller(c);
+            }
             started.push(has_inner(w, c));
         }
         if self.prop == "C07" {
@@ -325,34 +347,40 @@ fn configs(prop: &'static str, tier: Tier) -> Vec<Bh> {
                 grid: 10,
                 keep_done: false,
                 sync_panic_first: false,
+                preset_first: false,
             });
         }
     }
     // a wait in the seconds range (2.02 s, explored on a 1.01 s grid): whole seconds plus a
     // sub-second part
-    v.push(Bh { prop, max: 1, max_wait: Some(2020), callers: 3, max_ticks: tier.pick(3, 4), max_drops: 1, max_panics: 0, late_ticks: 0, shave_us: 0, single_handle: false, grid: 1010, keep_done: false, sync_panic_first: false });
+    v.push(Bh { prop, max: 1, max_wait: Some(2020), callers: 3, max_ticks: tier.pick(3, 4), max_drops: 1, max_panics: 0, late_ticks: 0, shave_us: 0, single_handle: false, grid: 1010, keep_done: false, sync_panic_first: false, preset_first: false });
+    // the builder calls in another order: reject_when_full() first, the wait (or a second
+    // reject_when_full()) after it, the limit last - the later call wins
+    for max_wait in [Some(0u64), Some(20)] {
+        v.push(Bh { prop, max: 1, max_wait, callers: 3, max_ticks: tier.pick(3, 4), max_drops: 1, max_panics: 0, late_ticks: 0, shave_us: 0, single_handle: false, grid: 10, keep_done: false, sync_panic_first: false, preset_first: true });
+    }
     // the first inner call panics inside call() itself
     for max_wait in [None, Some(20u64)] {
-        v.push(Bh { prop, max: 1, max_wait, callers: 3, max_ticks: tier.pick(2, 3), max_drops: 1, max_panics: 0, late_ticks: 0, shave_us: 0, single_handle: false, grid: 10, keep_done: false, sync_panic_first: true });
+        v.push(Bh { prop, max: 1, max_wait, callers: 3, max_ticks: tier.pick(2, 3), max_drops: 1, max_panics: 0, late_ticks: 0, shave_us: 0, single_handle: false, grid: 10, keep_done: false, sync_panic_first: true, preset_first: false });
     }
     // finished futures stay alive until dropped explicitly
     for max_wait in [None, Some(20u64)] {
-        v.push(Bh { prop, max: 1, max_wait, callers: 3, max_ticks: tier.pick(2, 3), max_drops: tier.pick(2, 3), max_panics: 0, late_ticks: 0, shave_us: 0, single_handle: false, grid: 10, keep_done: true, sync_panic_first: false });
+        v.push(Bh { prop, max: 1, max_wait, callers: 3, max_ticks: tier.pick(2, 3), max_drops: tier.pick(2, 3), max_panics: 0, late_ticks: 0, shave_us: 0, single_handle: false, grid: 10, keep_done: true, sync_panic_first: false, preset_first: false });
     }
     // all callers through the one original handle (no clone alive between calls)
     for max_wait in [None, Some(20u64)] {
-        v.push(Bh { prop, max: 1, max_wait, callers: 3, max_ticks: tier.pick(3, 4), max_drops: 1, max_panics: 0, late_ticks: 0, shave_us: 0, single_handle: true, grid: 10, keep_done: false, sync_panic_first: false });
+        v.push(Bh { prop, max: 1, max_wait, callers: 3, max_ticks: tier.pick(3, 4), max_drops: 1, max_panics: 0, late_ticks: 0, shave_us: 0, single_handle: true, grid: 10, keep_done: false, sync_panic_first: false, preset_first: false });
     }
     // waits with a sub-millisecond part: 0.5 ms and 19.75 ms
     for (max_wait, shave_us) in [(1u64, 500u64), (20, 250)] {
-        v.push(Bh { prop, max: 1, max_wait: Some(max_wait), callers: 3, max_ticks: tier.pick(3, 4), max_drops: 1, max_panics: 0, late_ticks: 0, shave_us, single_handle: false, grid: 10, keep_done: false, sync_panic_first: false });
+        v.push(Bh { prop, max: 1, max_wait: Some(max_wait), callers: 3, max_ticks: tier.pick(3, 4), max_drops: 1, max_panics: 0, late_ticks: 0, shave_us, single_handle: false, grid: 10, keep_done: false, sync_panic_first: false, preset_first: false });
     }
     // a late executor: woken callers (permit handed over, wait deadline passed) are polled up to two ticks late
     for (max, max_wait) in [(1usize, Some(20u64)), (1, None), (2, Some(20))] {
         if tier == Tier::Quick && max == 2 {
             continue;
         }
-        v.push(Bh { prop, max, max_wait, callers: 3, max_ticks: tier.pick(4, 5), max_drops: tier.pick(1, 2), max_panics: tier.pick(0, 1), late_ticks: 2, shave_us: 0, single_handle: false, grid: 10, keep_done: false, sync_panic_first: false });
+        v.push(Bh { prop, max, max_wait, callers: 3, max_ticks: tier.pick(4, 5), max_drops: tier.pick(1, 2), max_panics: tier.pick(0, 1), late_ticks: 2, shave_us: 0, single_handle: false, grid: 10, keep_done: false, sync_panic_first: false, preset_first: false });
     }
     v
 }
